@@ -245,9 +245,9 @@ PROPS['C08'].update({
 
 PROPS['C04'].update({
     'level': 'other',
-    'units': ['pwl_compose', 'pwl_compose_pruned', 'pwl_ops_tree', 'pwl_reduce', 'pwl_tree', 'pwl_schemas'],
+    'units': ['pwl_compose', 'pwl_compose_pruned', 'pwl_ops_tree', 'pwl_reduce', 'pwl_tree', 'pwl_schemas', 'pwl_misc'],
     'technique': 'Verus contracts: every un-pruned transformation under contract (compose::<false,false> / generic_composition_inplace, reduce, apply_func, add_child_node, update_node, from_aff) preserves Tree::wf and the shape invariant aff_shape_ok as part of its postcondition, and its panics are proved unreachable; bounded replay of operation histories (bc histories) for the LP-dependent transformations and the history quantifier',
-    'level_text': ('Mixed. PROVED (Verus, all trees, all arguments satisfying the stated dimension preconditions): the schema constructors (six activations, argmax, class_characterization: well-formed, one common terminal output dimension), compose::<false,false>, reduce, apply_func / apply_func_at_node, AffTree::add_child_node, update_node and from_aff '
+    'level_text': ('Mixed. PROVED (Verus, all trees, all arguments satisfying the stated dimension preconditions): AffTree::new / with_capacity (identity tree), add_terminal / add_decision / replace_node (unit pwl_misc), the schema constructors (six activations, argmax, class_characterization: well-formed, one common terminal output dimension), compose::<false,false>, reduce, apply_func / apply_func_at_node, AffTree::add_child_node, update_node and from_aff '
                    'each return a tree with Tree::wf (links mirrored, leaf flag <=> no children, single root, acyclic) and aff_shape_ok (every node function has the tree input dimension, every decision has 1..15 rows with 2^rows <= K), '
                    'and none of their unwrap / assert / index panics is reachable; since each postcondition re-establishes the precondition of the next operation, any history over these operations stays well-formed. '
                    'Also PROVED (unit pwl_compose_pruned): compose::<true,false> / generic_composition_inplace with the pruning schema keeps Tree::wf, aff_shape_ok and one common terminal output dimension and cannot panic FOR EVERY ANSWER PATTERN of the LP-based feasibility oracle '
